@@ -65,7 +65,10 @@ func (fp *FilePath) Write(b []byte) (n int, err error) {
 
 	for i := 0; i < int(binary.BigEndian.Uint16(fp.ItemCount[:])); i++ {
 		var fpi FilePathItem
-		scanner.Scan()
+		// Once the scanner is exhausted, Scan keeps returning false and Bytes keeps returning the last item.
+		if !scanner.Scan() {
+			return n, errors.New("file path has fewer items than its item count")
+		}
 
 		// Make a new []byte slice and copy the scanner bytes to it.  This is critical to avoid a data race as the
 		// scanner re-uses the buffer for subsequent scans.
